@@ -147,6 +147,15 @@ def run_history(DESC, hist, tmp, rnd, pool, detail=None):
                 ev["d"] = op[1]
                 w.write(rec)
                 written[TABLE_OF[op[1]]].append((rid, rec))
+            elif op[0] == "badwrite":
+                # a record SQLite refuses (an integer beyond 64 bits): write() raises, the caller skips it and carries on
+                ev["d"] = op[1]
+                bad = DESC[op[1]]("refused", 2 ** 70, _source="0", _generated=gen.GEN)
+                try:
+                    w.write(bad)
+                    ev["exc"] = "accepted"          # (then it would have to be counted: the model has no such step)
+                except Exception:
+                    pass
             elif op[0] == "flush":
                 w.flush()
             elif op[0] == "reopen":
@@ -259,6 +268,54 @@ def crash_trace(tmp, batch, npend, payload):
             {"op": "crash", "ccols": after[0], "crows": after[1]}]
 
 
+def locked_close_trace(DESC, tmp, rnd, pool, nwrites, batch):
+    """the final commit inside close() cannot be made (another connection is in the middle of reading the table): close()
+    raises and may be called again once the reader is done -- or it returns, and then everything is committed"""
+    from flow.record.adapter.sqlite import SqliteWriter
+
+    p = os.path.join(tmp, "locked.sqlite")
+    for f in glob.glob(p + "*"):
+        os.remove(f)
+    w = SqliteWriter(p, batch_size=batch)
+    w.con.execute("PRAGMA busy_timeout = 300")          # (the writer's own connection: do not wait five seconds for the reader)
+    obs = sqlite3.connect(p, timeout=0.2)
+    last = [({t: [] for t in TBL}, {t: [] for t in TBL})]
+
+    def look():
+        try:
+            last[0] = observe_db(obs)
+        except sqlite3.OperationalError:
+            pass                      # the writer holds the file: nobody can see anything new
+        return last[0]
+
+    tr = [{"op": "open", "batch": batch}]
+    for i in range(1, nwrites + 1):
+        w.write(make(DESC, "A", pool, rnd, i))
+        cc, cr = look()
+        tr.append({"op": "write", "d": "A", "ccols": cc, "crows": cr})
+    reader = sqlite3.connect(p)
+    cur = reader.execute('SELECT * FROM "select/from"')           # an unfinished SELECT: the reader holds its lock on the file
+    cur.fetchone()
+    first_raised = False
+    try:
+        w.close()
+    except Exception:
+        first_raised = True
+    cur.close()
+    reader.close()
+    if first_raised:
+        cc, cr = look()
+        tr.append({"op": "closefail", "ccols": cc, "crows": cr})
+        try:
+            w.close()                                             # the application tries again
+        except Exception:
+            pass
+    cc, cr = look()
+    tr.append({"op": "close", "ccols": cc, "crows": cr})
+    obs.close()
+    return tr
+
+
 def simulate(ctx, n, depth):
     d = common.scratch("c18sim")
     tlc.run("Sqlite", "Sim_Sqlite.cfg", simulate=f"file={d}/tr,num={n}", depth=depth, workers=1, seed=ctx.seed + 1, cont=False)
@@ -274,6 +331,8 @@ def simulate(ctx, n, depth):
                 batch = st["batch"]
             elif name == "Write":
                 ops.append(("write", args[0]))
+            elif name == "FailedWrite":
+                ops.append(("badwrite", "A"))
             elif name == "Flush":
                 ops.append(("flush",))
             elif name == "Close":
@@ -298,7 +357,7 @@ def random_hist(rnd, maxlen, maxbatch):
             ops += [("close",), ("reopen",)]                 # the next writes go through a new writer on the same file
             sessions += 1
             continue
-        ops.append(("flush",) if x < 0.12 else ("write", rnd.choice(["A", "A", "Aplus", "Aplus2", "Aalt", "B", "C", "R"])))
+        ops.append(("flush",) if x < 0.12 else ("badwrite", "A") if x < 0.2 else ("write", rnd.choice(["A", "A", "Aplus", "Aplus2", "Aalt", "B", "C", "R"])))
     ops.append(("close",))
     return (rnd.randint(1, maxbatch), ops)
 
@@ -310,8 +369,8 @@ def hist_key(h):
 def run(tier):
     ctx = check.Ctx(PROP, tier)
     thorough = tier == "thorough"
-    ctx.design("Sqlite", "MC_Sqlite.cfg", "exhaustive: 6 descriptors (four share a table), <=6 writes, batch 1..4, flush/close anywhere, <=2 writer sessions on the file",
-               actions=("Write", "Flush", "Close", "Reopen", "Crash"), workers=8)
+    ctx.design("Sqlite", "MC_Sqlite.cfg" if thorough else "MC_Sqlite_quick.cfg", "exhaustive: 6 descriptors (four share a table), <=" + ("6" if thorough else "5") + " writes, batch 1..4, flush/close anywhere, <=2 writer sessions on the file",
+               actions=("Write", "FailedWrite", "Flush", "Close", "Reopen", "Crash"), workers=8)
     ctx.sensitivity("Sqlite", "MC_Sqlite_dev_CrashKeepsSpilledPages.cfg", "spilled pages that survive the writer's death must violate AtBoundary", "AtBoundary", workers=4)
     ctx.sensitivity("Sqlite", "MC_Sqlite_dev_SessionSkipsEvolution.cfg", "a later session that does not add columns to an existing table must violate OneColumnPerField", "OneColumnPerField", workers=4)
     if thorough:
@@ -341,6 +400,12 @@ def run(tier):
         traces.append(tr)
         whys.append(why)
         ctx.case(hist_key(h))
+    # the final commit of close() meets a file that is locked by a reader
+    for nwrites, batch in ((3, 10), (7, 5)):
+        traces.append(locked_close_trace(DESC, tmp, ctx.rnd, pool, nwrites, batch))
+        whys.append(None)
+        hists.append((batch, [("locked-close", f"{nwrites} writes, then close() while another connection reads")]))
+        ctx.case(("locked-close", nwrites, batch))
     # the writer DIES in the middle of a batch (small: nothing spilled yet; large: beyond SQLite's page cache)
     for batch, npend, payload in ((5, 3, 10), (20000, 15000, 200)) + (((50000, 40000, 200), (20000, 15000, 1000)) if thorough else ()):
         traces.append(crash_trace(tmp, batch, npend, payload))
